@@ -99,7 +99,8 @@ def build_partition(rng, data, ivfc_log2=(6, 6, 6, 6), dpfs_log2=(None, 5, 6), e
     for (lvl, off, lg) in ((lv1, offs[0], ivfc_log2[0]), (lv2, offs[1], ivfc_log2[1]), (lv3, offs[2], ivfc_log2[2]),
                            (data, offs[3], ivfc_log2[3])):
         ivfc += struct.pack('<QQII', off, len(lvl), lg, 0)
-    ivfc += struct.pack('<Q', 0x78)
+    # the descriptor-size field is not checked by the reader (the descriptor is 0x78 bytes whatever it says): it is data to be kept
+    ivfc += struct.pack('<Q', rng.pick([0x78, 0x78, 0x78, 0, 0x70, 0x80, 0x178, rng.getrandbits(64)]))
     dpfs = b'DPFS\0\0\x01\0'
     for (off, size, lg) in ((o1, L1, 0), (o2, L2, dpfs_log2[1]), (o3, V, dpfs_log2[2])):
         dpfs += struct.pack('<QQII', off, size, lg, 0)
@@ -136,7 +137,7 @@ def build_diff(rng, data, active=0, desc_pad=0, **kw):
     header = bytearray(0x100)
     header[0:8] = b'DIFF\0\0\x03\0'
     header[0x8:0x30] = struct.pack('<QQQQQ', sec_off, prim_off, len(desc), part_off, len(part))
-    header[0x30:0x34] = (1 if active else 0).to_bytes(4, 'little')
+    header[0x30:0x34] = (active & 0xFFFFFFFF).to_bytes(4, 'little')       # any non-zero 32-bit value selects the secondary table
     header[0x34:0x54] = sha(desc)
     header[0x54:0x5C] = rng.rbytes(8)
     f = bytearray(rng.rbytes(0x10)) + bytes(0xF0) + header
@@ -181,7 +182,7 @@ def build_disa(rng, datas, active=0, **kw):
     header[0x48:0x58] = struct.pack('<QQ', part_offs[0], len(parts[0]))
     if len(parts) == 2:
         header[0x58:0x68] = struct.pack('<QQ', part_offs[1], len(parts[1]))
-    header[0x68] = 1 if active else 0
+    header[0x68] = (active & 0xFF) or (1 if active else 0)       # any non-zero byte selects the secondary table
     header[0x6C:0x8C] = sha(table)
     f = bytearray(rng.rbytes(0x10)) + bytes(0xF0) + header
     f += bytes(sec_off - len(f))
